@@ -189,6 +189,7 @@ struct HOp {
   int engine_code = 0;
   bool boolean = false;  // needs CAP_BOOL
   bool focus = false;    // member of the boolean-focus alphabet (deeper phase for the domains with CAP_BOOL)
+  bool rel4 = false;     // member of the four-variable relational alphabet (deeper phase for the relational domains)
   bool disabled = false; // excluded from the current phase (indices stay stable for replay)
 };
 
@@ -387,6 +388,25 @@ inline std::vector<HOp> build_alphabet(unsigned caps, bool extended) {
       for (auto n : focus_names)
         if (h.op.name == n) h.focus = true;
     }
+  }
+  // four-variable relational alphabet (tier 2: only used by its own phase, where w is an ordinary variable)
+  {
+    size_t first_new = A.size();
+    assume(2, cst({{1, VY}, {-1, VZ}}, 0, C_LEQ), "assume(y<=z)");
+    assume(2, cst({{1, VZ}, {-1, VW}}, 0, C_LEQ), "assume(z<=w)");
+    assume(2, cst({{1, VW}, {-1, VX}}, -1, C_LEQ), "assume(w-x<=1)");
+    assume(2, cst({{1, VY}, {-1, VW}}, -1, C_LEQ), "assume(y-w<=1)");
+    assume(2, cst({{-1, VW}}, 1, C_LEQ), "assume(w>=1)");
+    assume(2, cst({{1, VZ}, {-1, VX}}, -2, C_LEQ), "assume(z-x<=2)");
+    assign(2, VW, lin({{1, VZ}}, 1), "w:=z+1");
+    assign(2, VZ, lin({{1, VW}}), "z:=w");
+    { Op o; o.kind = O_FORGET; o.v0 = VW; add(2, o, "forget(w)"); }
+    { Op o; o.kind = O_FORGET; o.v0 = VZ; add(2, o, "forget(z)"); }
+    for (size_t i = first_new; i < A.size(); i++) A[i].rel4 = true;
+    const char *names[] = {"assume(x<=y)", "assume(x<=0)", "x:=y", "x:=x+1", "forget(y)", "r0:=r0|r1", "r0:=r0&r1", "r0:=r0||r1", "r1:=r0", "swap"};
+    for (auto &h : A)
+      for (auto n : names)
+        if (h.op.name == n) h.rel4 = true;
   }
   if (!extended) {
     std::vector<HOp> core;
